@@ -565,9 +565,9 @@ theorem alookup_aerase_ne {α : Type} (k k' : Key) (cs : List (Key × α)) (h : 
     · rw [if_neg e]; simp only [alookup]; rw [ih]
 
 /-- one step of the key loop (mapping family) does not touch the other keys -/
-theorem mergeStep_other_key (rec : Node → Node → Except Err (Node × Bool)) (sf : Flags)
+theorem mergeStep_other_key {exc : List Path} (rec : Node → Node → Except Err (Node × Bool)) (sf : Flags)
     (sk : CompKind) (hsk : sk.isDictFam = true) (acc acc' : List (Key × Node)) (kv : Key × Node)
-    (k : Key) (hne : kv.1 ≠ k) (h : mergeStep rec sf sk acc kv = .ok acc') :
+    (k : Key) (hne : kv.1 ≠ k) (h : mergeStep rec sf sk exc acc kv = .ok acc') :
     alookup k acc' = alookup k acc := by
   have hset : ∀ v r, setChild sf sk kv.1 v acc = .ok r → alookup k r = alookup k acc := by
     intro v r hr
@@ -608,10 +608,10 @@ theorem mergeStep_other_key (rec : Node → Node → Except Err (Node × Bool)) 
             · exact hset _ _ h
 
 /-- arguments whose key the other mapping does not mention survive the key loop unchanged -/
-theorem mergeLoop_untouched (rec : Node → Node → Except Err (Node × Bool)) (sf : Flags)
+theorem mergeLoop_untouched {exc : List Path} (rec : Node → Node → Except Err (Node × Bool)) (sf : Flags)
     (sk : CompKind) (hsk : sk.isDictFam = true) (k : Key) :
     ∀ (ocs acc acc' : List (Key × Node)), (∀ kv ∈ ocs, kv.1 ≠ k) →
-      mergeLoop rec sf sk acc ocs = .ok acc' → alookup k acc' = alookup k acc := by
+      mergeLoop rec sf sk exc acc ocs = .ok acc' → alookup k acc' = alookup k acc := by
   intro ocs
   induction ocs with
   | nil => intro acc acc' _ h; simp only [mergeLoop, Except.ok.injEq] at h; subst h; rfl
@@ -625,11 +625,11 @@ theorem mergeLoop_untouched (rec : Node → Node → Except Err (Node × Bool)) 
       exact mergeStep_other_key rec sf sk hsk acc acc1 kv k (hk kv (by simp)) h1
 
 /-- a key that is new to the function node is added with the (adopted) value of the mapping -/
-theorem mergeLoop_new_key (rec : Node → Node → Except Err (Node × Bool)) (sf : Flags)
+theorem mergeLoop_new_key {exc : List Path} (rec : Node → Node → Except Err (Node × Bool)) (sf : Flags)
     (sk : CompKind) (hsk : sk.isDictFam = true) (k : Key) (v : Node)
     (pre post acc acc' : List (Key × Node))
     (hpre : ∀ kv ∈ pre, kv.1 ≠ k) (hpost : ∀ kv ∈ post, kv.1 ≠ k) (hnew : alookup k acc = none)
-    (h : mergeLoop rec sf sk acc (pre ++ (k, v) :: post) = .ok acc') :
+    (h : mergeLoop rec sf sk exc acc (pre ++ (k, v) :: post) = .ok acc') :
     alookup k acc' = some (adopt sf sk v) := by
   induction pre generalizing acc with
   | nil =>
@@ -792,13 +792,13 @@ theorem compMerge_func_plain (rec : Node → Node → Except Err (Node × Bool))
             | .error e => .error e
             | .ok cs => .ok (propagate (.comp (replaceOtherFlags of sf) sk cs), true)
         else
-          match mergeLoop rec sf sk r.1.children ocs with
+          match mergeLoop rec sf sk r.2 r.1.children ocs with
           | .error e => .error e
           | .ok scs' =>
             .ok (if hasPrio of sf true then propagate (.comp (replaceSelfFlags sf of) sk scs')
                  else propagate (.comp (replaceOtherFlags sf of) sk scs'), true)
       else
-        match mergeLoop rec sf sk scs ocs with
+        match mergeLoop rec sf sk [] scs ocs with
         | .error e => .error e
         | .ok scs' =>
           .ok (if hasPrio of sf true then propagate (.comp (replaceSelfFlags sf of) sk scs')
